@@ -168,6 +168,7 @@ def c01(ck):
             s.add("decodex", r, 0, lid, 2)
             ck.add(Exec("long-%s-%d" % (lid, k), s.lines))
     boundary_phrase_execs(ck, rng, "c01")
+    ambiguous_phrase_execs(ck, rng, "c01")
     ck.validate()
     ck.require_outcomes(["Encode:-", "Decode:0", "DecodeX:0", "Decode:7"])
     ck.assumptions += ["NFC/NFKD are supplied by utf8proc 2.8 as the injected dependency; its NFC output is compared with Python unicodedata (golden) on every composed phrase",
@@ -334,6 +335,7 @@ def c02(ck):
             s.add("free", 1)
         ck.add(Exec("load-check-%d" % part, s.lines))
     boundary_phrase_execs(ck, rng, "c02")
+    ambiguous_phrase_execs(ck, rng, "c02")
     ck.validate()
     ck.require_outcomes(["DecodeX:3", "DecodeX:0", "Load:3"])
     ck.exhaustive = not quick
@@ -395,6 +397,23 @@ def c03(ck):
             s.add("encode", 0, LANG_IDS[(n + len(s.lines)) % 10], rng.choice(COINS_BOUNDARY), 1)
             s.add("free", 0)
         ck.add(Exec("dense-%d" % n, s.lines))
+    # every word of every list, as the encoder prints it (the word data is part of the published encoding)
+    for lid in LANG_IDS:
+        order = list(range(2048))
+        rng.shuffle(order)
+        slots = [1] + list(range(3, 16))
+        for part, grp in enumerate(chunked(order, 14 * 40)):
+            s = Script()
+            for ws in chunked(grp, 14):
+                w = [0] + [rng.below(2048) for _ in range(15)]
+                for p_, v in zip(slots, ws):
+                    w[p_] = v
+                w[2] &= ~1
+                w = codec.fix_check(w)
+                seed_script(s, 0, w, rng)
+                s.add("encode", 0, lid, 0, 1)
+                s.add("free", 0)
+            ck.add(Exec("every-word-printed-%s-%d" % (lid, part), s.lines))
     # ... and whatever the library's own state is at the time: the enabled features may have changed since the seed
     # was made, the dependencies may have been injected again, the allocator may be refusing
     for n in range(24 if quick else 300):
@@ -485,6 +504,11 @@ def c04(ck):
         s.add("keygen", 2, coin, 32)
         s.add("crypt", 2, pw)
         s.add("keygen", 2, coin, 32)
+        # the caller's key buffer is the caller's wherever it starts (odd addresses, sizes that are and are not
+        # multiples of a word)
+        for off in (1, 2, 3, 5, 8 + rng.below(8)):
+            s.add("env", "mask=" + hx(rng.bytes(64)))
+            s.add("keygen", 2, coin, rng.choice([32, 16, 64, 4, 33, 20]), "off=%d" % off)
         ck.add(Exec("keygen-%d" % n, s.lines))
     ck.validate()
     # the inputs are the call's own: derived on the caller's side of the library, not in state shared between calls.
@@ -604,6 +628,7 @@ def c05(ck):
             s.add("free", 1)
         ck.add(Exec("pairs-%s" % lid, s.lines))
     boundary_phrase_execs(ck, rng, "c05")
+    ambiguous_phrase_execs(ck, rng, "c05")
     ck.validate()
     ck.require_outcomes(["DecodeX:3", "DecodeX:0", "Decode:3"])
     ck.exhaustive = not quick
@@ -779,6 +804,7 @@ def c07(ck):
                 s.add("free", 1)
                 s.add("free", 0)
             ck.add(Exec("index-sweep-%s-%d" % (lid, part), s.lines))
+    ambiguous_phrase_execs(ck, rng, "c07")
     ck.validate()
     ck.exhaustive = True
     ck.assumptions += ["golden snapshot /verif/golden/lists.json (SHA-256 verified by setup) is the publication at the pinned release",
@@ -1096,7 +1122,7 @@ def c12(ck):
         pws.append(bytes(p["nfd"]))
     pws += [b"a" * 30, b"x" * 542, b"x" * 543, b"y" * 544, b"z" * 700, ("ü" * 100).encode()]
     # the password reaches the KDF as given (NFKD changes nothing in ASCII): capitals, digits, punctuation, spaces
-    pws += [b"Correct Horse Battery Staple", b"PIN-2024-XYZ", b"  lead and trail  ", b"Tab\tand\nnewline", b"MiXeD cAsE 0123456789 !\"#$%&'()*+,-./:;<=>?@[\\]^_`{|}~"]
+    pws += [b"Correct Horse Battery Staple", b"PIN-2024-XYZ", b"  lead and trail  ", b"Tab\tand\nnewline", b"hunter2\n", b"hunter2\r\n", b"\n", b"hunter2", b" ", b"\x7f\x01", b"MiXeD cAsE 0123456789 !\"#$%&'()*+,-./:;<=>?@[\\]^_`{|}~"]
     k = 0
     for n in range(30 if quick else 5000):
         s = Script()
@@ -1369,6 +1395,53 @@ def equal_word_phrase(k):
     return None, None
 
 
+def ambiguous_phrase_execs(ck, rng, tag, n=4):
+    """Phrases that two lists recognise in full: words of one Latin list spelled out that another list accepts too (at
+    other indices), valid in the first; and phrases of characters the two Chinese lists share. Automatic decoding says
+    'multiple languages' - with or without a language pointer, for the right coin and for any other - and never a seed."""
+    pairs = [("fr", "en"), ("en", "fr"), ("en", "es"), ("es", "pt"), ("it", "es"), ("en", "it")]
+    for k in range(n):
+        s = Script()
+        s.add("enable", 7)
+        for l1, l2 in pairs:
+            pool = [i for i in cross_accepted(l1, l2)]
+            if len(pool) < 16:
+                continue
+            w = None
+            for _ in range(400):
+                c = [0] + [rng.choice(pool) for _ in range(15)]
+                c[2] &= ~1
+                c = codec.fix_check(c)
+                if c[0] in pool and c[2] in pool:
+                    w = c
+                    break
+            if not w:
+                continue
+            r = s.string(codec.phrase(l1, w))
+            for coin in (0, rng.below(2048)):
+                s.add("decode", r, coin, 1)
+                s.add("free", 1)
+                s.add("decode", r, coin, 1, "nolang")
+                s.add("free", 1)
+            s.add("decodex", r, 0, l1, 1)
+            s.add("free", 1)
+            # one word exchanged for another one of the pool: still two lists, still no guess
+            w2 = list(w)
+            w2[1 + rng.below(15)] = rng.choice(pool)
+            r2 = s.string(codec.phrase(l1, w2))
+            s.add("decode", r2, 0, 1, "nolang")
+            s.add("free", 1)
+            s.add("decode", r2, 0, 1)
+            s.add("free", 1)
+        for lid in ("zh_s", "zh_t"):
+            r = s.string(codec.phrase(lid, ambiguous_idx(rng, lid)))
+            s.add("decode", r, 0, 1, "nolang")
+            s.add("free", 1)
+            s.add("decode", r, 0, 1)
+            s.add("free", 1)
+        ck.add(Exec("%s-ambiguous-%d" % (tag, k), s.lines))
+
+
 def boundary_phrase_execs(ck, rng, tag, n_equal=3):
     """Phrases at the edges of what the library can produce, through encode and both decoders: the longest phrase of
     every language (every word, the check word too, of maximal length - 543 bytes in Korean, the whole buffer), a
@@ -1451,6 +1524,9 @@ def structured_strings(rng, n):
                 toks = [P["wb"][rng.choice(pool)] for _ in range(16)]
         elif kind == 5:
             toks = toks[:15]
+            if rng.chance(1, 2):            # ... and a trailing separator: still fifteen
+                out.append(sep.join(toks) + rng.choice([b" ", "　".encode(), b"  "]))
+                continue
         elif kind == 6:
             toks = toks + [toks[0]]
         elif kind == 7:
@@ -1548,6 +1624,7 @@ def c09(ck):
                 s.add("free", 1)
             ck.add(Exec("history-%d-%s" % (n, prev), s.lines))
     boundary_phrase_execs(ck, rng, "c09")
+    ambiguous_phrase_execs(ck, rng, "c09")
     ck.validate()
     ck.require_outcomes(["Decode:0", "Decode:1", "Decode:2", "Decode:3", "Decode:7", "Decode:6", "DecodeX:2", "DecodeX:0"])
     ck.assumptions += ["the relation between automatic and explicit decoding is a TLC-checked theorem of the specification "
@@ -2022,6 +2099,21 @@ def c18(ck):
         s.add("keygen", 9, 0, 32)
         s.add("free", 9)
         ck.add(Exec("inject-%d" % n, s.lines))
+    # the normaliser is the caller's: the library knows of a string's decomposed form what the injected function says and
+    # nothing else (an identity 'normaliser' leaves U+3000 and precomposed letters as they are - and so must the library)
+    for n in range(6 if quick else 60):
+        s = Script()
+        s.add("env", "nfkd=identity")
+        for lid in ("jp", "ko", "es", "fr", "zh_s"):
+            idx = rand_idx(rng)
+            for composed in (True, False):
+                r = s.string(codec.phrase(lid, idx, composed=composed))
+                s.add("decode", r, 0, 1)
+                s.add("free", 1)
+                s.add("decodex", r, 0, lid, 1)
+                s.add("free", 1)
+        s.add("env", "nfkd=real")
+        ck.add(Exec("identity-normaliser-%d" % n, s.lines))
     ck.validate()
     ck.require_outcomes(["Inject:-", "Create:0", "Crypt:-", "Keygen:-"])
 
